@@ -27,7 +27,8 @@ from harness.common import framework as fw
 
 PROP = "C11"
 GENERATED = ["WsCodecGen.v", "WsGen.v"]
-RULE = ("operation sequences (text/binary/ping/pong/close, sends after close) x (mask, negotiated wbits 0/9..15, "
+RULE = ("operation sequences (text/binary/ping/pong/close, sends after close; the same application bytearray sent "
+        "several times as bytearray / memoryview and rewritten in between) x (mask, negotiated wbits 0/9..15, "
         "notakeover, per-message compress override) x payload sizes {0,1,2, 124..127, 16383..16385, 65534..65537, "
         "random small, 100 KiB..3 MiB} x segmentations (one shot, byte-at-a-time, random cuts, cuts inside every header) "
         "x peer limits (max_msg_size 0 / len+1 / len, decode_text); concurrent: 2-4 sender tasks x executor completion "
@@ -371,21 +372,42 @@ def impl_run(loop, case):
     tr, rnd, log = Tr(), _Rnd(), []
     tags, wlens, refusals = [], [], []
 
+    bufs = [bytearray.fromhex(h) for h in case.get("bufs", [])]     # the application's own mutable buffers
+    modified, ops_eff = [], []
+
     async def go():
         w = make_writer(cfg, tr, rnd)
-        for op in ops:
+        for idx, op in enumerate(ops):
             mark, ex0 = len(tr.buf), getattr(loop, "_c11_exec_calls", 0)
+            held = None
             try:
                 if op[0] == "S":
                     rnd.next = op[3]
-                    await w.send_frame(bytes.fromhex(op[4]), op[1], op[2] or None)
+                    if len(op) > 5 and op[5]:
+                        # the payload is one of the application's buffers, handed over as it is (bytearray, or a
+                        # memoryview over it); `snap` is what the application supplied at the time of this send
+                        bi, kind, newhex = op[5]
+                        if newhex is not None:
+                            bufs[bi][:] = bytes.fromhex(newhex)
+                        snap = bytes(bufs[bi])
+                        held = (bi, snap)
+                        ops_eff.append(op[:4] + [snap.hex(), op[5]])
+                        obj = bufs[bi] if kind == "bytearray" else memoryview(bufs[bi])
+                        await w.send_frame(obj, op[1], op[2] or None)
+                    else:
+                        ops_eff.append(op)
+                        await w.send_frame(bytes.fromhex(op[4]), op[1], op[2] or None)
                 else:
+                    ops_eff.append(op)
                     rnd.next = op[2]
                     await w.close(op[1], bytes.fromhex(op[3]))
             except Exception as e:  # noqa
                 tags.append("R")
                 refusals.append(type(e).__name__)
                 continue
+            finally:
+                if held is not None and bytes(bufs[held[0]]) != held[1]:
+                    modified.append(idx)
             # what happened, read off the transport: plain / compressed frame; was the executor used
             try:
                 frames = parse_frames(bytes(tr.buf[mark:]))
@@ -403,7 +425,8 @@ def impl_run(loop, case):
         loop.run_until_complete(go())
         wire = bytes(tr.buf)
         msgs, status = impl_read(loop, rc, cfg["compress"], cut(wire, case.get("cuts", [])))
-    return {"wire": wire, "tags": "".join(tags), "wlens": wlens, "msgs": msgs, "status": status, "refusals": refusals}
+    return {"wire": wire, "tags": "".join(tags), "wlens": wlens, "msgs": msgs, "status": status, "refusals": refusals,
+            "modified": modified, "ops_eff": ops_eff}
 
 
 # ------------------------------------------------------------------------------------------------
@@ -448,8 +471,13 @@ def expected(op):
 
 def judge(case, r):
     """None if the case is outside the property's domain or the round trip holds; else (what, extra)."""
-    ops, rc = case["ops"], case["rc"]
+    ops, rc = (r.get("ops_eff") or case["ops"]), case["rc"]
     acc = [i for i, t in enumerate(r["tags"]) if t != "R"]
+    if r.get("modified"):
+        i = r["modified"][0]
+        return (f"send_frame changed the application's own payload buffer (operation {i}, "
+                f"{ops[i][5][1] if len(ops[i]) > 5 else '?'} of {len(ops[i][4]) // 2} bytes): the buffer no longer holds what was sent",
+                {"first_bad_op": i, "status": r["status"], "first_bad": None, "tags": r["tags"], "buffer_modified": True})
     closing = False
     for i, op in enumerate(ops):
         if r["tags"][i] == "R" and op_wf(rc, op) and not (closing and op[0] == "S" and not (op[1] & 8)):
@@ -502,6 +530,8 @@ def shrink(loop, case, budget=120):
             if bad(c):
                 cur, changed = c, True
         for i, op in enumerate(cur["ops"]):
+            if len(op) > 5:
+                continue
             k = 4 if op[0] == "S" else 3
             ln = len(op[k]) // 2
             for new in (0, 1, ln // 2, ln - 1):
@@ -663,6 +693,38 @@ def mandatory_cases(rng):
     return cases
 
 
+def buffer_cases(rng, n, backend):
+    """The application keeps mutable buffers (bytearray) and sends the SAME object several times — as it is or through
+    a memoryview — possibly rewriting it between sends.  Each send must deliver what the buffer held at that moment and
+    must leave the buffer alone."""
+    cases = []
+    sizes = [1, 2, 5, 125, 126, 127, 300, 4096, 16384, 16385, 65536, 70000]
+    for k in range(n):
+        mask = 0 if k % 7 == 6 else 1
+        mode = ["plain", "shared", "override", "notakeover"][k % 4]
+        cfg = {"mask": mask, "compress": 0 if mode == "plain" else rng.choice([15, 15, 9, 12]),
+               "notakeover": 1 if mode == "notakeover" else 0}
+        nb = rng.randrange(1, 3)
+        cur = [rng.randbytes(rng.choice(sizes[:8] if k % 5 else sizes)) for _ in range(nb)]
+        bufs = [b.hex() for b in cur]
+        ops = []
+        for j in range(rng.randrange(2, 6)):
+            bi = rng.randrange(nb)
+            newhex = None
+            if j and rng.random() < 0.2:
+                cur[bi] = rng.randbytes(len(cur[bi]))        # the application rewrites its buffer (same length)
+                newhex = cur[bi].hex()
+            kind = rng.choice(["bytearray", "bytearray", "memoryview"])
+            ov = 12 if (mode == "override" and j == 0) else 0
+            ops.append(["S", OP_BINARY, ov, rng.getrandbits(32), cur[bi].hex(), [bi, kind, newhex]])
+            if rng.random() < 0.15:
+                ops.append(["S", OP_PING, 0, rng.getrandbits(32), b"p".hex()])
+        wire_len = sum(len(o[4]) // 2 + 14 for o in ops)
+        cases.append({"cfg": cfg, "rc": {"max": 0, "decode_text": 0}, "ops": ops, "bufs": bufs,
+                      "cuts": gen_cuts(rng, wire_len) if k % 2 else [], "backend": backend})
+    return cases
+
+
 # ------------------------------------------------------------------------------------------------
 # suite `codec`: toy codec on both sides; writer bytes / path / reader messages compared with the model
 
@@ -707,6 +769,8 @@ def check_case(ctx, loop, case, mline, suite):
     ctx.case((json.dumps(case, sort_keys=True), r["wire"], json.dumps(r["msgs"]), r["status"]), nontrivial=nontriv)
     for t in r["tags"]:
         ctx.count(f"path:{t}")
+    if case.get("bufs"):
+        ctx.count("resent-buffer-sends", sum(1 for o in case["ops"] if len(o) > 5))
     ctx.count(f"status:{r['status']}")
     ctx.count("cuts:" + ("one" if not case.get("cuts") else "many"))
     if mline is not None:
@@ -786,6 +850,7 @@ def suite_codec(ctx, exe, loop):
                 rc["max"] = max(data) + rng.choice([0, 1, 1, 2, 5, 4096])
         wire_len = sum(len(o[4 if o[0] == "S" else 3]) // 2 + 14 for o in ops)
         cases.append({"cfg": cfg, "rc": rc, "ops": ops, "cuts": gen_cuts(rng, wire_len), "backend": "toy"})
+    cases += buffer_cases(rng, 140 if ctx.quick else 3000, "toy")
     if not ctx.quick:
         for n in (1 << 20, 3 << 20):
             for mask in (0, 1):
@@ -870,6 +935,7 @@ def suite_zlib(ctx, loop):
         ops = gen_ops(rng, cfg, rc, rng.randrange(1, 10), pool, allow_big=(i % 20 == 0))
         wire_len = sum(len(o[4 if o[0] == "S" else 3]) // 2 + 14 for o in ops)
         cases.append({"cfg": cfg, "rc": rc, "ops": ops, "cuts": gen_cuts(rng, wire_len // 2), "backend": "zlib"})
+    cases += buffer_cases(rng, 80 if ctx.quick else 2000, "zlib")
     # multi-megabyte messages (sync / executor path, masked / unmasked, with and without history)
     for n in ((1 << 20) + 17, 3 << 20) if ctx.quick else ((1 << 20) + 17, 3 << 20, 8 << 20):
         for mask in (0, 1):
@@ -1276,7 +1342,7 @@ def run_corpus(ctx, exe, loop):
             if bad:
                 ctx.violation(case, "corpus " + os.path.basename(f) + ": " + bad)
         else:
-            c = {k: case[k] for k in ("cfg", "rc", "ops", "cuts", "backend") if k in case}
+            c = {k: case[k] for k in ("cfg", "rc", "ops", "cuts", "backend", "bufs") if k in case}
             ml = run_model(exe, [model_line(c)])[0] if (exe is not None and c.get("backend", "toy") == "toy") else None
             check_case(ctx, loop, c, ml, "corpus")
         ran += 1
@@ -1322,7 +1388,7 @@ def replay(ctx, case):
     loop = asyncio.new_event_loop()
     inline_executor(loop)
     try:
-        c = {k: case[k] for k in ("cfg", "rc", "ops", "cuts", "backend") if k in case}
+        c = {k: case[k] for k in ("cfg", "rc", "ops", "cuts", "backend", "bufs") if k in case}
         r = impl_run(loop, c)
         v = judge(c, r)
         out = {"violates": v is not None, "why": v[0] if v else None, "impl": {"tags": r["tags"], "status": r["status"],
